@@ -132,6 +132,15 @@ def to_repr(interp, v: Any) -> Any:
     return sstr(Atom("repr", nonempty=True))
 
 
+def concat_chunks(a: ExtObj, b: Any) -> ExtObj:
+    if isinstance(b, bytes) and not b:
+        return a
+    n = None
+    if isinstance(b, ExtObj) and isinstance(a.attrs.get("n"), int) and isinstance(b.attrs.get("n"), int):
+        n = None  # lengths of short reads are unknown
+    return ExtObj("bytes:chunk", {"stream": a.attrs.get("stream"), "n": n, "exact": False, "via": a.attrs.get("via"), "data": None})
+
+
 def _len(interp, v: Any) -> Any:
     if isinstance(v, (str, bytes, tuple)):
         return len(v)
@@ -749,6 +758,17 @@ def _print(interp, args, kwargs):
 # -- protobuf / io
 
 
+def _find_stream(v: Any, depth: int = 0) -> Any:
+    if isinstance(v, ExtObj) and v.kind in ("io.stream", "io.BufferedReader"):
+        return v
+    if isinstance(v, Obj) and depth < 3:
+        for x in v.attrs.values():
+            r = _find_stream(x, depth + 1)
+            if r is not None:
+                return r
+    return None
+
+
 def _parse_length_prefixed(interp, args, kwargs):
     cls, inp = args[0], args[1]
     interp.emit("io", method="parse_length_prefixed", recv=inp)
@@ -762,7 +782,24 @@ def _parse_length_prefixed(interp, args, kwargs):
         if not ok:
             return None
         return fr
-    return fresh_unknown("parse_length_prefixed")
+    if isinstance(inp, Obj) and _find_stream(inp) is not None:
+        # a reader object of the repository: protobuf reads the varint length byte-wise, then the body, through its read()
+        src = stream_root(_find_stream(inp))
+        src.attrs["own_reader"] = True
+        first = interp.call(interp.getattr(inp, "read"), [1], {})
+        if not interp.truth(first, "length-prefix byte"):
+            return None
+        body = interp.call(interp.getattr(inp, "read"), [5], {})
+        if isinstance(body, ExtObj) and body.kind == "bytes:chunk":
+            interp.emit("parse_input", exact=bool(body.attrs.get("exact")), via=body.attrs.get("via"), n=body.attrs.get("n"))
+        elif not interp.truth(body, "frame body"):
+            raise interp.exc("DecodeError", "Truncated message.")
+        ok, fr = _next_frame(interp, src)
+        interp.emit("frame_pull", got=ok, frame=fr, own_reader=True)
+        if not ok:
+            raise interp.exc("DecodeError", "Truncated message.")
+        return fr
+    raise AnalysisError(f"parse_length_prefixed on {inp!r}: no model for this kind of input object")
 
 
 def _parse(interp, args, kwargs):
@@ -787,7 +824,7 @@ def _parse(interp, args, kwargs):
         if not ok:
             raise interp.exc("DecodeError", "Error parsing message")
         return fr
-    return fresh_unknown("parse")
+    raise AnalysisError(f"protobuf parse() of {data!r}: the analysis cannot tell which bytes these are")
 
 
 def _frames_remaining(interp, root: ExtObj) -> bool:
